@@ -117,29 +117,6 @@ func (b *Box) HandleMessage(msg *IncMessage) {
 	}
 }
 
-func (b *Box) getOrCreateMessagesByTopic(topic []byte) *storedMessages {
-	b.initialize()
-
-	b.lock.RLock()
-	messages, exists := b.pendingMessages[string(topic)]
-	b.lock.RUnlock()
-
-	if exists {
-		return messages
-	}
-
-	b.lock.Lock()
-	defer b.lock.Unlock()
-
-	messages, exists = b.pendingMessages[string(topic)]
-	if !exists {
-		messages = &storedMessages{messageCountPerSender: make(map[uint16]int), logger: b.Logger}
-	}
-
-	b.pendingMessages[string(topic)] = messages
-	return messages
-}
-
 func (b *Box) storeOrForward(msg *IncMessage) {
 	b.initialize()
 
@@ -161,20 +138,36 @@ func (b *Box) storeOrForward(msg *IncMessage) {
 		return
 	}
 
-	b.markTopicForSender(msg)
-
-	messages := b.getOrCreateMessagesByTopic(msg.Topic)
-	messages.add(msg)
+	// The topic may have started since we last looked: decide and store in one critical section,
+	// so that a message is either drained by Send or forwarded here, never left behind.
+	if !b.storeUnlessStarted(msg) {
+		b.MessageHandler.HandleMessage(msg)
+	}
 }
 
-func (b *Box) markTopicForSender(msg *IncMessage) {
+// storeUnlessStarted buffers the message and returns true, unless we have started sending on its topic.
+func (b *Box) storeUnlessStarted(msg *IncMessage) bool {
 	b.lock.Lock()
 	defer b.lock.Unlock()
+
+	if _, started := b.startedSending[string(msg.Topic)]; started {
+		return false
+	}
 
 	if _, exists := b.totalInFlightTopicsBySender[msg.Source]; !exists {
 		b.totalInFlightTopicsBySender[msg.Source] = make(map[string]struct{})
 	}
 	b.totalInFlightTopicsBySender[msg.Source][string(msg.Topic)] = struct{}{}
+
+	messages, exists := b.pendingMessages[string(msg.Topic)]
+	if !exists {
+		messages = &storedMessages{messageCountPerSender: make(map[uint16]int), logger: b.Logger}
+		b.pendingMessages[string(msg.Topic)] = messages
+	}
+
+	messages.add(msg)
+
+	return true
 }
 
 func (b *Box) initialize() {
